@@ -11,6 +11,11 @@ Model:   specs/HtmlDoc.tla  P-layer: push-down acceptor `Step(state, event)` ove
 spec->code: every payload and every shape TLC enumerates becomes a set of DSDL root namespaces, is generated with the real html target into
          ONE output directory and judged; the I-layer's predictions (verdict per payload, pages, hyperlinks, broken hyperlinks) are compared
          per run - differences are model drift, never verdicts.
+config:  the NAME of a namespace page is a parameter of the run (<namespace file stem><extension>, "index.html" by default;
+         --namespace-output-stem / --output-extension, LanguageContextBuilder overrides).  The I-layer has it as IndexPage(cfg) and the
+         shapes are generated under {default, stem override, extension override, both} (quick: one shape per ordered namespace pair
+         and configuration; thorough: all), through the builder API and, for a few, through the command line.  P is unchanged: a
+         directory url denotes <dir>/index.html only, the resolved page must be among the produced ones.
 code->spec: every produced page is tokenised with html.parser in a bookkeeping subclass; the events of all pages of a run form one trace
          for specs/HtmlDocTrace.tla (one TLC state per token event, link clause at `endrun` over the pages/ids/links of the run); plus seeded
          random universes that are larger than anything TLC enumerates.
@@ -357,17 +362,49 @@ class Universe:
         return [root / "dsdl" / r for r in self.roots()]
 
 
-_LCTX = None
+_LCTX = {}
 
 
-def generate(case, root, public=False):
-    """run the real html generator over every root namespace of the universe into ONE output directory.
+def cfg_of(config):
+    """(stem override | None, extension override | None, through the command line?) of a run configuration"""
+    config = config or {}
+    return config.get("stem") or None, config.get("ext") or None, bool(config.get("cli"))
+
+
+def nspage_of(config):
+    """the file name the generator is configured to give a namespace page"""
+    stem, ext, _ = cfg_of(config)
+    return (stem or "index") + (ext or ".html")
+
+
+def cfg_class(config):
+    stem, ext, _ = cfg_of(config)
+    return "+".join((["stem"] if stem not in (None, "index") else []) + (["extension"] if ext not in (None, ".html") else [])) or "default"
+
+
+def language_context(stem, ext):
+    from nunavut.lang import LanguageContextBuilder, Language
+
+    if (stem, ext) not in _LCTX:
+        b = LanguageContextBuilder(include_experimental_languages=True).set_target_language("html")
+        if ext is not None:
+            b.set_target_language_extension(ext)
+        if stem is not None:
+            b.set_target_language_configuration_override(Language.WKCV_NAMESPACE_FILE_STEM, stem)
+        _LCTX[(stem, ext)] = b.create()
+    return _LCTX[(stem, ext)]
+
+
+def generate(case, root, public=False, config=None):
+    """run the real html generator over every root namespace of the universe into ONE output directory, under the run configuration
+    config = {"stem": namespace file stem override, "ext": output extension override, "cli": through `python -m nunavut`}.
     Returns (universe, {relative posix path: page text})."""
-    global _LCTX
+    import subprocess
     import pydsdl
     import nunavut
-    from nunavut.lang import LanguageContextBuilder
     from nunavut.jinja import DSDLCodeGenerator
+
+    stem, ext, cli = cfg_of(config)
 
     uni = Universe(case)
     root = pathlib.Path(root)
@@ -378,13 +415,19 @@ def generate(case, root, public=False):
         out = root / "out"
         for r in roots:
             others = [str(x) for x in roots if x != r]
-            if public:
+            if cli:
+                cmd = [sys.executable, "-m", "nunavut", "--target-language", "html", "--experimental-languages", "-O", str(out)]
+                for o in others:
+                    cmd += ["-I", o]
+                cmd += (["--namespace-output-stem", stem] if stem is not None else []) + (["--output-extension", ext] if ext is not None else [])
+                p = subprocess.run(cmd + [str(r)], stdout=subprocess.PIPE, stderr=subprocess.STDOUT, text=True, timeout=600, env=dict(os.environ))
+                if p.returncode:
+                    raise RuntimeError("python -m nunavut exited with %d: %s" % (p.returncode, p.stdout.strip()[-300:]))
+            elif public and stem is None and ext is None:  # generate_types has no parameter for either override
                 nunavut.generate_types("html", r, out, lookup_directories=others, include_experimental_languages=True)
             else:
-                if _LCTX is None:
-                    _LCTX = LanguageContextBuilder(include_experimental_languages=True).set_target_language("html").create()
                 types = pydsdl.read_namespace(str(r), others)
-                ns = nunavut.build_namespace_tree(types, str(r), str(out), _LCTX)
+                ns = nunavut.build_namespace_tree(types, str(r), str(out), language_context(stem, ext))
                 DSDLCodeGenerator(ns).generate_all(False)
         pages = {}
         for p in sorted(out.rglob("*")):
@@ -449,10 +492,11 @@ def events_of_run(pages, uni, run_id, pg0):
 
 def work(job):
     """one generator run in a worker process: generate, tokenise, write the ndjson trace of the run"""
-    run_id, case, public, scratch = job
-    res = {"run": run_id, "error": None}
+    run_id, case, public, scratch = job[:4]
+    config = job[4] if len(job) > 4 else None
+    res = {"run": run_id, "error": None, "nspage": nspage_of(config)}
     try:
-        uni, pages = generate(case, os.path.join(scratch, "g%d-%d" % (os.getpid(), run_id)), public)
+        uni, pages = generate(case, os.path.join(scratch, "g%d-%d" % (os.getpid(), run_id)), public, config)
     except Exception as ex:  # the generator (or PyDSDL) refused the input
         res["error"] = "%s: %s" % (type(ex).__name__, str(ex)[:300])
         return res
@@ -511,9 +555,10 @@ def judge(ctx, results, per_batch=None):
     return out, judged
 
 
-def page_kind(path):
+def page_kind(path, nspage="index.html"):
+    """nspage: the name this run gives a namespace page"""
     depth = path.count("/")
-    if path.endswith("/index.html"):
+    if path.endswith("/" + nspage):
         return "root-namespace-page" if depth == 1 else "nested-namespace-page"
     return "type-page"
 
@@ -569,8 +614,13 @@ def verdicts(ctx, results, cases, origin, only=None):
         cache = {}
         summ = {"sentinel": set(), "balanced": set(), "links": set(), "fidelity": set()}
         uni = Universe(case["universe"])
-        replay_case = {"universe": case["universe"], "public": case.get("public", False), "origin": origin}
+        config = case.get("config") or {}
+        nsp = r["nspage"]
+        replay_case = {"universe": case["universe"], "public": case.get("public", False), "config": config, "origin": origin}
         damaged = set()
+
+        def pkind(path):
+            return page_kind(path, nsp)
 
         def report(sig, what, **kw):
             if only is None or sig == only:  # a replay asks about the recorded failure, not about every other clause of that universe
@@ -595,11 +645,11 @@ def verdicts(ctx, results, cases, origin, only=None):
                     sid = rec.get("arg") or 0
                     report("C20|html.sentinel|%s" % klass,
                            "page %s (%s): %s%s - text taken from a DSDL definition reaches the page as markup, not as character data"
-                           % (path, page_kind(path), rec["detail"], (" span %d (%s) payload %r" % (sid, uni.slot.get(sid), uni.spans.get(sid))) if sid else ""),
+                           % (path, pkind(path), rec["detail"], (" span %d (%s) payload %r" % (sid, uni.slot.get(sid), uni.spans.get(sid))) if sid else ""),
                            page=path, clause=cl, detail=rec["detail"], event=rec["n"])
                 elif cl == "html.balanced":
                     summ["balanced"].add(path)
-                    report("C20|html.balanced|%s|%s" % (rec["detail"], page_kind(path)),
+                    report("C20|html.balanced|%s|%s" % (rec["detail"], pkind(path)),
                            "page %s is not well-formed: %s at token %d" % (path, rec["detail"], rec["n"]),
                            page=path, clause=cl, detail=rec["detail"], event=rec["n"])
                 else:
@@ -645,14 +695,24 @@ def verdicts(ctx, results, cases, origin, only=None):
                     ctx.cov["link_rejections_folded_target_page_damaged_by_injection"] = ctx.cov.get("link_rejections_folded_target_page_damaged_by_injection", 0) + 1
                     continue
                 tk = sorted({T[i]["kind"] for i in rec["refs"]})
-                if rec["detail"] == "page-not-produced" and page_kind(path) == "nested-namespace-page" and href.startswith("../"):
+                # the directory the url leads to (P put index.html behind a directory url: rec["dir"])
+                tdir = target[:-len("index.html")].rstrip("/") if rec.get("dir") else target
+                why = ""
+                if rec["detail"] == "page-not-produced" and nsp != "index.html" and (tdir + "/" + nsp).lstrip("/") in r["sizes"]:
+                    # the url leads to the directory of a namespace whose page this run produced under the configured name: the
+                    # generator links to the namespace's DIRECTORY, which denotes index.html whatever the namespace page is called
+                    sig = "C20|html.link|namespace-page-not-index|%s" % cfg_class(config)
+                    why = (": the url denotes %s (a directory url denotes its index.html); this run (namespace file stem %r, output extension %r)"
+                           " names the page of that namespace %s/%s and produces no index.html"
+                           % (target, config.get("stem") or "index", config.get("ext") or ".html", tdir, nsp))
+                elif rec["detail"] == "page-not-produced" and pkind(path) == "nested-namespace-page" and href.startswith("../"):
                     sig = "C20|html.link|nested-namespace-page-relative-root"
                 elif rec["detail"] == "anchor-not-produced" and tk == ["service"] and re.search(r"_(Request|Response)_\d+_\d+$", href):
                     sig = "C20|html.link|service-request-response-anchor"
                 else:
-                    sig = "C20|html.link|%s|%s|%s" % (page_kind(path), rec["detail"], "+".join(tk))
-                report(sig, "hyperlink %r for a reference to %s on page %s does not resolve: %s"
-                       % (href, ", ".join(tname(i) for i in rec["refs"]), path, rec["detail"]),
+                    sig = "C20|html.link|%s|%s|%s" % (pkind(path), rec["detail"], "+".join(tk))
+                report(sig, "hyperlink %r for a reference to %s on page %s does not resolve: %s%s"
+                       % (href, ", ".join(tname(i) for i in rec["refs"]), path, rec["detail"], why),
                        page=path, clause="html.link", detail=rec["detail"], href=href)
         # every type-reference hyperlink the harness saw on the pages was put before the link clause of P, whatever its style
         # (asserted on runs whose pages are read as the generator wrote them, i.e. without injected markup)
@@ -770,25 +830,51 @@ def py_resolve(frm, href):
     return p, u.fragment
 
 
-def check_oracle(ctx, vocab, shapes):
+STYLES = ("code", "fixed", "page")
+
+
+def check_vocab(vocab):
     if sorted(to_s(x) for x in vocab["void"]) != sorted(VOID) or sorted(to_s(x) for x in vocab["raw"]) != sorted(RAWTEXT):
         raise MachineryFailure("HtmlDoc!VoidTags / RawTags differ from the harness vocabulary")
+
+
+def compact_shape(sh):
+    """one emitted shape record: cross-check every Resolve() result with urllib's RFC 3986 resolution (the directory convention
+    'index.html and nothing else' spelled out here a second time), then keep pages / links / broken links per link style as strings.
+    Returns the number of Resolve() results checked."""
+    pages = {"/".join(seg(p)) for p in sh["pages"]}
     n = 0
-    for sh in shapes:
-        pages = {"/".join(seg(p)) for p in sh["pages"]}
-        for key in ("resolved_code", "resolved_fixed"):
-            for r in sh[key]:
-                if not r["ok"]:
-                    continue
-                frm, href = "/".join(seg(r["from"])), to_s(r["href"])
-                p, frag = py_resolve(frm, href)
-                if p == "" or p.endswith("/") or (p not in pages and p + "/index.html" in pages):
-                    p = (p.rstrip("/") + "/index.html").lstrip("/")
-                if p != "/".join(seg(r["page"])) or frag != to_s(r["frag"]):
-                    raise MachineryFailure("HtmlDoc!Resolve(%r, %r) = %r#%r but RFC 3986 resolution gives %r#%r"
-                                           % (frm, href, "/".join(seg(r["page"])), to_s(r["frag"]), p, frag))
-                n += 1
-    ctx.cov["oracle_crosscheck"] = "%d Resolve() results equal urllib's RFC 3986 resolution" % n
+    for st in STYLES:
+        links = set()
+        for r in sh.pop("resolved_" + st):
+            frm, href = "/".join(seg(r["from"])), to_s(r["href"])
+            links.add((frm, href))
+            if not r["ok"]:
+                continue
+            p, frag = py_resolve(frm, href)
+            isdir = p == "" or p.endswith("/") or (p not in pages and p + "/index.html" in pages)
+            if isdir:
+                p = (p.rstrip("/") + "/index.html").lstrip("/")
+            if p != "/".join(seg(r["page"])) or frag != to_s(r["frag"]) or isdir != r["dir"]:
+                raise MachineryFailure("HtmlDoc!Resolve(%r, %r) = %r#%r (directory: %r) but RFC 3986 resolution gives %r#%r (directory: %r)"
+                                       % (frm, href, "/".join(seg(r["page"])), to_s(r["frag"]), r["dir"], p, frag, isdir))
+            n += 1
+        sh["links_" + st] = links
+        sh["broken_" + st] = {("/".join(seg(x["from"])), to_s(x["href"])) for x in sh["broken_" + st]}
+    sh["pages"] = pages
+    for k in ("stem", "ext", "index_page"):
+        sh[k] = to_s(sh[k])
+    return n
+
+
+def emitted_records(res):
+    """the JSON records of an emission run, one at a time (a thorough emission is some hundred MB of text)"""
+    for ln in res.out.splitlines():
+        if ln.startswith('"{'):
+            try:
+                yield json.loads(json.loads(ln))
+            except ValueError:
+                raise MachineryFailure("cannot parse TLC output line: %r" % ln[:200])
 
 
 def run(ctx):
@@ -805,23 +891,36 @@ def run(ctx):
         ("sanity", "HtmlDoc", ctx.pick("HtmlDoc", "HtmlDoc_6"), max(2, NCPU // 2)),
         ("vacuity", "HtmlDoc", "HtmlDoc_neg", 2),
         ("refine", "HtmlDocGen", "HtmlDocGen", 2),
+        ("refine_stem", "HtmlDocGen", "HtmlDocGen_cfgstem", 1),  # the link part of the refinement under the other run configurations
+        ("refine_ext", "HtmlDocGen", "HtmlDocGen_cfgext", 1),
+        ("refine_both", "HtmlDocGen", "HtmlDocGen_cfgboth", 1),
+        ("dirurl", "HtmlDocGen", "HtmlDocGen_dirurl", 2),
         ("samepage", "HtmlDocGen", "HtmlDocGen_samepage", 2),
         ("negtext", "HtmlDocGen", "HtmlDocGen_negtext", 1),
         ("neglinks", "HtmlDocGen", "HtmlDocGen_neglinks", 1),
         ("negprefix", "HtmlDocGen", "HtmlDocGen_negprefix", 1),
         ("negbyname", "HtmlDocGen", "HtmlDocGen_negbyname", 1),
-        ("emit", "HtmlDocGen", ctx.pick("HtmlDocGen_emitq", "HtmlDocGen_emit"), 1),  # 2. spec -> code: stimuli + predictions
-    ]
+        ("negstem", "HtmlDocGen", "HtmlDocGen_negstem", 1),
+        # 2. spec -> code: stimuli + predictions (quick: every shape under the default configuration + the sample under the others;
+        # thorough: every shape under every configuration, one emission run per configuration)
+        ("emit", "HtmlDocGen", ctx.pick("HtmlDocGen_emitq", "HtmlDocGen_emit"), 1),
+    ] + ctx.pick([], [("emit_" + c, "HtmlDocGen", "HtmlDocGen_emit_" + c, 1) for c in ("stem", "ext", "both")])
     with concurrent.futures.ThreadPoolExecutor(max_workers=len(plan)) as ex:
         futs = {k: ex.submit(tlc.run_tlc, S / (m + ".tla"), S / (c + ".cfg"), ctx.scratch, workers=w, timeout=3000) for k, m, c, w in plan}
         R = {k: f.result() for k, f in futs.items()}
     consts = {
         "sanity": "all token strings <= %d over 14 tokens (p,/p,pre,/pre,br,text,span,span-open,span-close,script,/script,raw+mark,comment,"
                   "comment+mark)" % ctx.pick(5, 6),
-        "refine": "EscMode=markupsafe LinkStyle=fixed: 820 payloads (<=3 of 9 special tokens) x {pre, attribute} + 3456 type-graph shapes over "
-                  "6 namespaces incl. string-prefix-related names",
+        "refine": "EscMode=markupsafe LinkStyle=page (the url names the namespace page): 820 payloads (<=3 of 9 special tokens) x {pre, attribute} "
+                  "+ 3456 type-graph shapes over 6 namespaces incl. string-prefix-related names, default run configuration (namespace page "
+                  "index.html)",
+        "refine_stem": "LinkStyle=page, stem override (namespace page page.html): 3456 shapes",
+        "refine_ext": "LinkStyle=page, extension override (namespace page index.htm, type pages *.htm): 3456 shapes",
+        "refine_both": "LinkStyle=page, both overrides (namespace page page.htm): 3456 shapes",
+        "dirurl": "LinkStyle=fixed (directory url of the root namespace) under the default configuration (namespace page index.html): 3456 shapes",
         "samepage": "LinkStyle=samepage (bare #anchor for types listed on the page, decided on name components): 3456 shapes",
         "emit": "emission of stimuli + predictions",
+        "emit_stem": "emission, stem override", "emit_ext": "emission, extension override", "emit_both": "emission, both overrides",
     }
     for k, m, c, w in plan:
         if k in consts:
@@ -832,19 +931,31 @@ def run(ctx):
     if R["vacuity"].violated != "NoSpanEverAccepted":
         raise MachineryFailure("vacuity control: no token string with a sentinel span is accepted by the acceptor (%s)" % R["vacuity"].error)
     controls = {}
-    for k, inv in (("negtext", "TextRefinesP"), ("neglinks", "LinksRefineP"), ("negprefix", "LinksRefineP"), ("negbyname", "LinksRefineP")):
+    for k, inv in (("negtext", "TextRefinesP"), ("neglinks", "LinksRefineP"), ("negprefix", "LinksRefineP"), ("negbyname", "LinksRefineP"),
+                   ("negstem", "LinksRefineP")):  # negstem: directory urls while the namespace page is not called index.html
         if R[k].violated != inv:
             raise MachineryFailure("negative control %s: the defective variant was not refuted (%s %s)" % (k, R[k].error, R[k].violated))
         controls["HtmlDocGen_" + k] = "refuted by %s" % inv
     ctx.cov["model_negative_controls"] = controls
     lap("models+emission")
-    emitted = R["emit"].json_lines()
-    vocab = [r for r in emitted if r["kind"] == "vocab"]
-    texts = [r for r in emitted if r["kind"] == "text"]
-    shapes = [r for r in emitted if r["kind"] == "links"]
+    vocab, texts, shapes, cshapes, nres = [], [], [], [], 0
+    for k in [k for k, _, _, _ in plan if k.startswith("emit")]:
+        for rec in emitted_records(R[k]):
+            if rec["kind"] == "vocab":
+                vocab.append(rec)
+            elif rec["kind"] == "text":
+                texts.append(rec)
+            else:
+                nres += compact_shape(rec)
+                (shapes if rec["cfg"] == "default" else cshapes).append(rec)
+        R[k].out = ""
     if len(texts) != 820 or len(shapes) < 2160 or not vocab:
         raise MachineryFailure("emission incomplete: %d payloads, %d shapes" % (len(texts), len(shapes)))
-    check_oracle(ctx, vocab[0], shapes)
+    check_vocab(vocab[0])
+    ctx.cov["oracle_crosscheck"] = "%d Resolve() results equal urllib's RFC 3986 resolution" % nres
+    per_cfg = {c: sum(1 for r in cshapes if r["cfg"] == c) for c in ("stem", "ext", "both")}
+    if set(per_cfg.values()) != {ctx.pick(36, len(shapes))}:
+        raise MachineryFailure("emission incomplete: shapes per non-default configuration %r" % per_cfg)
     payloads = [to_s(t["text"]) for t in texts]
     # quick: one sixth of the shapes - in canonical order (target kind, array kind) vary fastest (12 combinations per
     # (referrer namespace, target namespace, referrer kind)); the selection takes two of the twelve and rotates them, so every ordered
@@ -868,8 +979,26 @@ def run(ctx):
         else:
             uni = universe_from_shape(sh, payloads, 5 * hostile)
             hostile += 1
-        cases[rid] = {"universe": uni, "public": public, "shape": sh}
-        jobs.append((rid, uni, public, scratch))
+        # a few runs of the default configuration go through the command line
+        config = {"cli": True} if rid % ctx.pick(180, 600) == 11 else {}
+        cases[rid] = {"universe": uni, "public": public, "shape": sh, "config": config}
+        jobs.append((rid, uni, public, scratch, config))
+    # the configuration dimension: the shapes TLC emitted under a stem override, an extension override and both, generated with
+    # exactly these overrides (the values are the model's); every 18th (thorough: 300th) through the command line
+    cshapes.sort(key=lambda r: (r["cfg"], r["src"], r["dst"], r["skind"], r["chain"], r["dkind"], r["how"]))
+    for k, sh in enumerate(cshapes):
+        rid = len(cases)
+        config = {"stem": sh["stem"] if sh["cfg"] in ("stem", "both") else None, "ext": sh["ext"] if sh["cfg"] in ("ext", "both") else None,
+                  "cli": k % ctx.pick(18, 300) == 0}
+        if nspage_of(config) != sh["index_page"]:
+            raise MachineryFailure("configuration %r does not give the model's namespace page name %r" % (config, sh["index_page"]))
+        if rid % 4 == 0:
+            uni = universe_from_shape(sh, ["plain text %d" % j for j in range(5)], 5 * rid)
+        else:
+            uni = universe_from_shape(sh, payloads, 5 * hostile)
+            hostile += 1
+        cases[rid] = {"universe": uni, "public": False, "shape": sh, "config": config}
+        jobs.append((rid, uni, False, scratch, config))
     if 5 * hostile < len(payloads):
         raise MachineryFailure("not every enumerated payload was planted (%d slots for %d payloads)" % (5 * hostile, len(payloads)))
     n_model = len(cases)
@@ -877,8 +1006,13 @@ def run(ctx):
     for _ in range(ctx.pick(130, 2000)):
         rid = len(cases)
         public = rid % 10 == 3
-        cases[rid] = {"universe": rand_universe(ctx.rng), "public": public}
-        jobs.append((rid, cases[rid]["universe"], public, scratch))
+        # every third random universe under a random non-default configuration (other stems / extensions than the model's)
+        config = {}
+        if rid % 3 == 1:
+            public = False
+            config = ctx.rng.choice([{"stem": st, "ext": ex} for st in (None, "page", "main") for ex in (None, ".htm", ".xhtml") if st or ex])
+        cases[rid] = {"universe": rand_universe(ctx.rng), "public": public, "config": config}
+        jobs.append((rid, cases[rid]["universe"], public, scratch, config))
     results = run_jobs(ctx, jobs)
     lap("generation+tokenizing")
     errors = [r for r in results if r["error"]]
@@ -912,7 +1046,8 @@ def run(ctx):
         c = cases[rid]
         key = "m" if rid < n_model else "r"
         for path in r["index"].values():
-            ctx.distinct("%s|%s|%s" % (key, page_kind(path), sha(json.dumps(c["universe"], sort_keys=True) + path)[:10]))
+            ctx.distinct("%s|%s|%s|%s" % (key, cfg_class(c.get("config")), page_kind(path, r["nspage"]),
+                                          sha(json.dumps(c["universe"], sort_keys=True) + path)[:10]))
     mid = by_run.get(n_model // 2) or next(iter(by_run.values()))
     u = cases[mid["run"]]["universe"]
     ctx.sample({"direction": "spec->code", "types": [{k: t[k] for k in ("ns", "name", "kind", "refs")} for t in u["types"]], "spans": u["spans"],
@@ -931,19 +1066,29 @@ def run(ctx):
                        "namespace doc comments of the type-graph shapes TLC enumerates (namespace of referrer x namespace of target x "
                        "plain/fixed array/variable array x struct/union/delimited/service request/service response x struct/union/delimited/"
                        "deprecated%s; %s), all root namespaces generated into one output directory, every 4th run with plain text only; "
+                       "run configuration (name of the namespace pages): default + {namespace file stem 'page', output extension '.htm', both} "
+                       "for %s, through LanguageContextBuilder overrides and, for %d runs, `python -m nunavut`; "
                        "code->spec: %d seeded random universes (1-3 roots, nesting <=4, 3-8 types, payloads over %d tokens incl. unicode, "
                        "character references, comment/CDATA/raw-text openers); one trace per page, one TLC state per token event; "
                        "distinct = (origin, page kind, universe+page hash)"
                        % (ctx.pick("", ", chains of three types"),
                           ctx.pick("quick: every (namespaces, kinds) combination with one of the three array kinds, rotating", "all shapes"),
+                          ctx.pick("one shape per ordered pair of namespaces and configuration (kinds rotating)", "all shapes"),
+                          sum(1 for c in cases.values() if cfg_of(c.get("config"))[2]),
                           len(cases) - n_model, len(RAND_TOKENS)))
+    runs_by_cfg = {}
+    for rid in by_run:
+        c = cases[rid].get("config")
+        k = cfg_class(c) + (" (command line)" if cfg_of(c)[2] else "")
+        runs_by_cfg[k] = runs_by_cfg.get(k, 0) + 1
+    ctx.cov["runs_by_configuration"] = runs_by_cfg
     ctx.cov["exhaustive"] = False
     ctx.assumptions += [
         "TLC and the HtmlDoc / HtmlDocGen / HtmlDocTrace specifications",
         "python html.parser (3.12) as the tokenizer, with bookkeeping that flags its tolerant recoveries; optional end tags are not inferred "
         "(every non-void element must be closed explicitly, which is how 'balanced' is read)",
-        "a URL that denotes a directory denotes its index.html (namespace pages are named index.html for a web server's directory index); "
-        "'..' above the output directory is outside the produced tree",
+        "a URL that denotes a directory denotes its index.html and nothing else (a web server's directory index), whatever the run was "
+        "configured to call its namespace pages; '..' above the output directory is outside the produced tree",
         "a hyperlink is 'emitted for a reference to a type' when the text of the <a> element names a type of the generated universe",
         "PyDSDL restricts names to identifiers and constant values to numbers/booleans, so only doc comments can carry markup characters",
     ]
@@ -957,7 +1102,7 @@ def compare_with_ilayer(ctx, cases, by_run, summary, texts, n_model):
     verdicts (P decided above)."""
     pred = {to_s(t["text"]): (frozenset(t["pred_none"]), frozenset(t["pred_esc"])) for t in texts}
     esc_votes = {"none": 0, "markupsafe": 0, "neither": 0, "both": 0}
-    link_votes = {"code": 0, "fixed": 0, "neither": 0, "both": 0}
+    link_votes = {}  # configuration class -> {link styles of the I-layer the run agrees with: number of runs}
     drift = []
     for rid in range(n_model):
         r = by_run.get(rid)
@@ -966,7 +1111,7 @@ def compare_with_ilayer(ctx, cases, by_run, summary, texts, n_model):
         c, s = cases[rid], summary[rid]
         sh = c["shape"]
         # text: the stub page of Zqt1 carries exactly one span (its type doc, span 1) inside <pre>
-        stub = "/".join(seg(sh["dst"]) + [to_s(sh["names"][0]) + "_1_0.html"])
+        stub = "/".join(seg(sh["dst"]) + [to_s(sh["names"][0]) + "_1_0" + sh["ext"]])
         if stub in r["sizes"] and c["universe"]["spans"][1] in pred:
             obs = frozenset((["html.sentinel"] if stub in s["sentinel"] else []) + (["html.balanced"] if stub in s["balanced"] else []))
             pn, pe = pred[c["universe"]["spans"][1]]
@@ -976,23 +1121,18 @@ def compare_with_ilayer(ctx, cases, by_run, summary, texts, n_model):
                 drift.append("payload %r on %s: T-layer says %s, I-layer predicts %s (no escaping) / %s (escaping)"
                              % (c["universe"]["spans"][1], stub, sorted(obs), sorted(pn), sorted(pe)))
         # pages and links
-        pages = {p for p in r["sizes"] if not p.endswith("/__1_0.html")}
-        want = {"/".join(seg(p)) for p in sh["pages"]}
+        pages = {p for p in r["sizes"] if not p.endswith("/__1_0" + sh["ext"])}
+        want = sh["pages"]
         if pages != want:
             drift.append("run %d: produced pages %s, I-layer predicts %s" % (rid, sorted(pages ^ want)[:4], "other set"))
         obs_links = set(r["obs"]["links"])
-        lc = {("/".join(seg(x["from"])), to_s(x["href"])) for x in sh["links_code"]}
-        lf = {("/".join(seg(x["from"])), to_s(x["href"])) for x in sh["links_fixed"]}
         obs_broken = {(a, b) for a, b, _ in s["links"]}
-        bc = {("/".join(seg(x["from"])), to_s(x["href"])) for x in sh["broken_code"]}
-        bf = {("/".join(seg(x["from"])), to_s(x["href"])) for x in sh["broken_fixed"]}
-        mc = obs_links == lc and obs_broken == bc
-        mf = obs_links == lf and obs_broken == bf
-        k = "both" if mc and mf else "code" if mc else "fixed" if mf else "neither"
-        link_votes[k] += 1
+        k = "+".join(st for st in STYLES if obs_links == sh["links_" + st] and obs_broken == sh["broken_" + st]) or "neither"
+        votes = link_votes.setdefault(sh["cfg"], {})
+        votes[k] = votes.get(k, 0) + 1
         if k == "neither":
-            drift.append("run %d: type-reference links %s / broken %s differ from both I-layer link styles"
-                         % (rid, sorted(obs_links ^ lc)[:3], sorted(obs_broken ^ bc)[:3]))
+            drift.append("run %d (%s configuration): type-reference links %s / broken %s differ from every I-layer link style"
+                         % (rid, sh["cfg"], sorted(obs_links ^ sh["links_fixed"])[:3], sorted(obs_broken ^ sh["broken_fixed"])[:3]))
     ctx.cov["impl_vs_ilayer"] = {"escaping": esc_votes, "links": link_votes}
     for d in drift[:20]:
         ctx.drift(d)
@@ -1070,6 +1210,25 @@ def selftests(ctx):
         bad_c = verdict_of("anchor-renamed", retarget(copy(), True))
         ctx.selftest("renamed anchor of a type-reference hyperlink is rejected (html.link anchor-not-produced)",
                      (bad_c - ok_c)[("html.link", "anchor-not-produced")] >= 1)
+    # (2b) the namespace page is recorded under another name than index.html (what a stem / extension override does): a hyperlink that
+    # leads to the namespace's directory (or to index.html) no longer leads to a produced page
+    plink = None  # a type-reference hyperlink with a path (not a bare #anchor) on a page called index.html
+    for i, e in enumerate(evs):
+        if e["k"] == "open" and to_s(e["t"]) == "a":
+            href = next((plain(a["v"]) for a in e["a"] if to_s(a["n"]) == "href" and a["hv"]), "")
+            doc = next(d for d in evs if d["k"] == "doc" and d["pg"] == e["pg"])
+            nxt = next((f for f in evs[i + 1:] if f["k"] in ("text", "close")), None)
+            if "/" in href.split("#")[0] and to_s(doc["path"][-1]) == "index.html" and nxt and nxt["k"] == "text" and nxt["refs"]:
+                plink = e["pg"]
+                break
+    if plink is None:
+        ctx.not_exercised("binding self-test 'namespace page name': no type-reference hyperlink with a path on this tree's pages")
+    else:
+        ev2 = copy()
+        next(d for d in ev2 if d["k"] == "doc" and d["pg"] == plink)["path"][-1] = cps("page.htm")
+        got = verdict_of("pagename", ev2) - base_c
+        ctx.selftest("namespace page recorded as page.htm instead of index.html: the type-reference hyperlink into its directory is rejected "
+                     "(html.link page-not-produced)", got[("html.link", "page-not-produced")] >= 1)
     # (3) the last end tag of a page is lost
     i = next((i for i in range(len(evs) - 1, -1, -1) if evs[i]["k"] == "close" and not evs[i]["bad"]), None)
     if i is None:
@@ -1080,9 +1239,9 @@ def selftests(ctx):
         got = verdict_of("close", ev2) - base_c
         ctx.selftest("dropped end tag is rejected (html.balanced)", any(c == "html.balanced" and n >= 1 for (c, _), n in got.items()))
     # spec -> code direction: a perturbed expected outcome must be noticed by the comparison
-    sh = {"src": [cps("zqra")], "dst": [cps("zqra")], "names": [cps("Zqt1"), cps("Zqt2"), cps("Zqt3")],
-          "pages": [[cps("zqra"), cps("index.html")]], "links_code": [], "links_fixed": [],
-          "broken_code": [], "broken_fixed": []}
+    sh = {"src": [cps("zqra")], "dst": [cps("zqra")], "names": [cps("Zqt1"), cps("Zqt2"), cps("Zqt3")], "cfg": "default", "ext": ".html",
+          "pages": {"zqra/index.html"}, "links_code": set(), "links_fixed": set(), "links_page": set(),
+          "broken_code": set(), "broken_fixed": set(), "broken_page": set()}
     fake = Ctx0()
     compare_with_ilayer(fake, {0: {"universe": case, "shape": sh}}, {0: base}, {0: {"sentinel": set(), "balanced": set(), "links": set()}},
                         [{"text": cps("benign"), "pred_none": ["html.sentinel"], "pred_esc": ["html.sentinel"]}], 1)
@@ -1101,7 +1260,8 @@ class Ctx0:
 
 def replay(ctx, case):
     uni = case["universe"]
-    res = work((0, uni, bool(case.get("public")), str(ctx.scratch)))
+    res = work((0, uni, bool(case.get("public")), str(ctx.scratch), case.get("config")))
     if res["error"]:
         raise MachineryFailure("replay: generator raised %s" % res["error"])
-    verdicts(ctx, [res], {0: {"universe": uni, "public": case.get("public", False)}}, "replay", only=case.get("signature"))
+    verdicts(ctx, [res], {0: {"universe": uni, "public": case.get("public", False), "config": case.get("config")}}, "replay",
+             only=case.get("signature"))
